@@ -111,6 +111,8 @@ type Result struct {
 	Aborted  bool
 	LastQ    quiesce.Result
 	Complete bool // model says complete at the end
+	// Trace: the engine's pending requests after each step (for differential runs)
+	Trace []string
 }
 
 // compare checks the engine's observable state against the model at a quiescent point.
@@ -374,6 +376,7 @@ func RunStepwise(prop string, c *Case, env *fw.Env, v *fw.V) *Result {
 			break
 		}
 		blockedCallers(v, q, "after answering "+task)
+		res.Trace = append(res.Trace, fmt.Sprintf("%s=>%v", task, in.PendingActs()))
 		if !compare(prop, v, in, m, i+1, "answer "+task, c.Lenient) {
 			res.Aborted = true
 			break
